@@ -152,7 +152,10 @@ STATIC.update({
     # the emitted statement is structurally wrong (or the back end raises); they are as narrow as the features allow.
     "django-constant-null-test": lambda ctx: _is_dj(ctx) and "constant-null-test-as-operand" in ctx["features"],
     "django-nested-compare-parens": lambda ctx: _is_dj(ctx) and ("cmp-operand-is-cmp-of-arith" in ctx["features"]
-                                                                 or "nested-lookup-with-compound-left" in ctx["features"]),
+                                                                 or "nested-lookup-with-compound-left" in ctx["features"]
+                                                                 # `(not X) lt false` is emitted as `NOT (X) < %s`, which SQL
+                                                                 # reads as NOT ((X) < %s); for eq / ne both readings agree
+                                                                 or "not-as-ordering-compare-operand" in ctx["features"]),
     "django-outer-column-in-lambda": lambda ctx: _is_dj(ctx) and "outer-ref-in-lambda" in ctx["features"],
     "sa-outer-column-in-lambda": lambda ctx: _is_sa(ctx) and "outer-ref-in-lambda" in ctx["features"],
     "sa-lambda-inner-join-dropped": lambda ctx: _is_sa(ctx) and ("path-inside-lambda" in ctx["features"]
